@@ -53,6 +53,10 @@ def e2e_oracle(ctx: Ctx, cases: List[Dict[str, Any]], res: Result, region: str, 
     runs = engine.pmap_forked(e2e.run_case, [(rt_common.strip_case(c),) for c in cases], timeout=180)
     pyd_lines: List[Dict[str, Any]] = []
     pyd_index: List[Tuple[int, int, Any]] = []
+    exec_lines: List[Dict[str, Any]] = []
+    exec_index: List[Tuple[int, int]] = []
+    valid_lines: List[Dict[str, Any]] = []
+    valid_index: List[int] = []
     for ci, (c, (status, r)) in enumerate(zip(cases, runs)):
         res.evaluations += 1
         res.count(f"e2e:{region}:packages")
@@ -85,10 +89,40 @@ def e2e_oracle(ctx: Ctx, cases: List[Dict[str, Any]], res: Result, region: str, 
                     pyd_lines.append({"op": "validate", **env, "operations": ops, "index": oi,
                                       "payloads": [wire.enc(d) for _, d in items]})
                     pyd_index.append((ci, oi, items))
+        # reference semantics of the executor / validator (lean Spec/Exec.lean, Spec/Validate.lean) vs graphql-core:
+        # every answer of the real executor must satisfy respOK for the document as SENT; every case (all of them
+        # passed graphql-core's validate) must satisfy validDoc
+        if pyd_corr and status == "ok" and r.get("gen") == "ok" and r.get("import") == "ok":
+            env0, ops0 = rt_common.env_and_ops(c)
+            valid_lines.append({"op": "validDoc", **env0, "operations": ops0})
+            valid_index.append(ci)
+            for k, call in enumerate(r["calls"]):
+                resp = call.get("response") or {}
+                if call.get("sent") and resp.get("data") is not None and not resp.get("errors"):
+                    try:
+                        senv, sops = rt_common.env_and_ops({"sdl": c["sdl"], "queries": call["sent"]["query"], "snake": c.get("snake", True)})
+                    except Exception:
+                        continue
+                    sop = next((o for o in sops if o["name"] == call["op"]), None)
+                    if sop:
+                        exec_lines.append({"op": "respOK", **senv, "operation": sop, "payloads": [wire.enc(resp["data"])]})
+                        exec_index.append((ci, k))
         if len(res.samples) < 6 and status == "ok" and r.get("calls"):
             call = r["calls"][0]
             res.sample({"observation": "e2e", "queries": c["queries"][:500], "config": c["config"],
                         "response": json.dumps((call.get("response") or {}).get("data"))[:300], "verdict": [v[0] for v in verdicts] or "ok"})
+    if exec_lines:
+        for (ci, k), out in zip(exec_index, common.run_driver(rt_common.DRIVER, exec_lines)):
+            res.count("exec:respOK-checked")
+            if out != [True]:
+                call = runs[ci][1]["calls"][k]
+                res.mismatches.append(Mismatch("execRespOK", {"sdl": cases[ci]["sdl"], "sent": call["sent"]["query"], "response": call["response"]["data"]},
+                                               "graphql-core returned this answer", out))
+    if valid_lines:
+        for ci, out in zip(valid_index, common.run_driver(rt_common.DRIVER, valid_lines)):
+            res.count("validate:validDoc-checked")
+            if out is not True:
+                res.mismatches.append(Mismatch("validDoc", {"sdl": cases[ci]["sdl"], "queries": cases[ci]["queries"]}, "graphql-core validate accepts", out))
     if pyd_lines:
         outs = common.run_driver(rt_common.DRIVER, pyd_lines)
         for (ci, oi, items), out in zip(pyd_index, outs):
